@@ -76,6 +76,34 @@ def records(ctx):
                 pair_obs(lambda: fs.fold().marginalize(over), lambda: fs.marginalize(over).fold()), 'Spectrum.marginalize')
             add('same_as', {'law': 'CombineCommutesFold', 's': enc(fs), 'a': a, 'b': b},
                 pair_obs(lambda: fs.fold().combine_two_pops([a, b]), lambda: fs.combine_two_pops([a, b]).fold()), 'Spectrum.combine_two_pops')
+    # object re-use: every operation called twice on the same object gives the same answer (judged against the object as it was)
+    # and leaves the object - values, mask, folding, labels - as it was (own RNG)
+    r5 = random.Random(ctx.seed + 1010)
+    for k in range(6 if ctx.quick else 36):
+        ndim = [2, 3, 4][k % 3]
+        sh = rand_shape(r5, ndim, 1, dims[ndim])
+        labels = r5.sample(['YRI', 'CEU', 'CHB', 'pop4', 'p5', 'six'], ndim) if k % 2 == 0 else None
+        fs = rand_spectrum(r5, sh, folded=(k % 3 == 1), labels=labels, mask_mode=['none', 'corners'][k % 2])
+        P = ndim
+        over = sorted(r5.sample(range(P), r5.randint(1, P - 1)))
+        keep = sorted(r5.sample(range(1, P + 1), r5.randint(1, P - 1)))
+        perm = list(range(1, P + 1))
+        r5.shuffle(perm)
+        a, b = sorted(r5.sample(range(1, P + 1), 2))
+        for op, inp, call, site in (
+                ('marginalize', {'over': [x + 1 for x in over]}, lambda: fs.marginalize(tuple(over)), 'Spectrum.marginalize'),
+                ('filter', {'keep': keep}, lambda: fs.filter_pops(list(keep)), 'Spectrum.filter_pops'),
+                ('reorder', {'perm': perm}, lambda: fs.reorder_pops(list(perm)), 'Spectrum.reorder_pops'),
+                ('combine_two', {'a': a, 'b': b}, lambda: fs.combine_two_pops([a, b]), 'Spectrum.combine_two_pops'),
+                ('scramble', {}, lambda: fs.scramble_pop_ids(mask_corners=bool(np.ma.getmaskarray(fs).any())), 'Spectrum.scramble_pop_ids')):
+            if op == 'scramble' and P > 3:
+                continue
+            before = enc(fs)
+            o1, o2 = observe(call), observe(call)
+            after = enc(fs)
+            add(op, dict(inp, s=before), o1, site)
+            add(op, dict(inp, s=before), o2, site + '[second call on the same object]')
+            add('unchanged', {'law': 'ObjectUnchangedBy:' + op}, {'s': before, 't': after}, site)
     # pooled sample sizes beyond 1030 chromosomes (binomial coefficients beyond the range of a double)
     for sh in ([5, 1061],) if ctx.quick else ([5, 1061], [3, 1201], [4, 3, 1100]):
         fs = rand_spectrum(rng, sh, folded=False, labels=rand_labels(rng, len(sh)), mask_mode='none', integer=True)
@@ -85,6 +113,8 @@ def records(ctx):
 
 def nontrivial(r):
     i = r['in']
+    if r['op'] == 'unchanged':
+        return ('unchanged', i['law'], tuple(r['out'].get('s', {}).get('sh', [])))
     s = i['s']
     return (r['op'], i.get('law'), tuple(s['sh']), s['f'], bool(s['ids']), tuple(i.get('over', ())), tuple(i.get('perm', ())),
             tuple(i.get('keep', ())), i.get('a'), i.get('b'), tuple(i.get('pops', ())))
